@@ -1,11 +1,12 @@
 """C11 - sample-level mix returns a convex combination with matching label weights"""
 import glob
 import os
-from pyvc.report import add_direct
+from pyvc.report import add_direct, run_contracts
+import contracts.mixwrapper as cw
 from pyvc import frames
 from replay import mixwrapper as rp
 
-LEVEL = "exploration"
+LEVEL = "proof"
 RULE = ("runtime contract (postcondition of C11) on the real KDMixWrapper / ModeWrapper over id-encoded datasets: sizes {1,2,3,4,6}, 4 shape "
         "profiles (equal shapes and differing shapes with pad_or_cut_end), probabilities {1, 0.5, 0.2}, alphas {0.2, 1, 5}, 4 seeds "
         "(thorough: 20), every index, 4 mode orders; distinct by (configuration, seed), non-trivial when the wrapper accepts it")
@@ -13,6 +14,7 @@ FILES = ["kappadata/wrappers/sample_wrappers/kd_mix_wrapper.py", "kappadata/util
 
 
 def run(res):
+    run_contracts(res, cw.CONTRACTS, cw.CONTRACTS)
     frames.mix_wrapper_single_draw(res)
     frames.no_inplace_on_dataset_values(res, FILES)
     frames.undefined_names(res, FILES, "mix-wrapper")
